@@ -79,6 +79,22 @@ func singletonTypes(p *Program) map[string]bool {
 	for i := 0; i < st.NumFields(); i++ {
 		walk(st.Field(i).Type(), 0, false)
 	}
+	// stores of external apps: registered in the context's ExtStores map as data.ExtStore values
+	ext := 0
+	for fn := range p.Fns {
+		if !inRepo(fn) || fn.Blocks == nil {
+			continue
+		}
+		allInstrs(fn, func(ins ssa.Instruction) {
+			if mi, ok := ins.(*ssa.MakeInterface); ok && tname(mi.Type()) == "data.ExtStore" {
+				ext++
+				walk(mi.X.Type(), 0, false)
+			}
+		})
+	}
+	if ext == 0 {
+		fail("no external store registration (conversion to data.ExtStore) found")
+	}
 	delete(res, "app.context")
 	return res
 }
